@@ -38,7 +38,7 @@ func cases(tier string) int {
 	if tier == "thorough" {
 		return 6000
 	}
-	return 480
+	return 960
 }
 
 var blockers = []string{"none", "none", "node-dnd", "pod-dnd-true", "pod-dnd-duration-active", "pod-dnd-duration-expired", "pod-dnd-duration-boundary",
